@@ -214,14 +214,14 @@ def scriptOf (a : Addr) (v : Nat) : List Nat → Option (List Step)
     | some x, some y => some (x ++ y)
     | _, _ => none
 
-def lookupRow (tbl : List (Nat × List Nat)) (export : Nat) : Option (List Nat) :=
+def lookupRow (tbl : List (Nat × List Nat)) (exportCode : Nat) : Option (List Nat) :=
   match tbl with
   | [] => none
-  | (e, calls) :: rest => if e = export then some calls else lookupRow rest export
+  | (e, calls) :: rest => if e = exportCode then some calls else lookupRow rest exportCode
 
 /-- A native export call as a transaction: export code, target cell, written value. -/
-def nativeTx (tbl : List (Nat × List Nat)) (s : St) (export : Nat) (a : Addr) (v : Nat) : St × Option Err :=
-  match lookupRow tbl export with
+def nativeTx (tbl : List (Nat × List Nat)) (s : St) (exportCode : Nat) (a : Addr) (v : Nat) : St × Option Err :=
+  match lookupRow tbl exportCode with
   | none => ({ s with handles := [] }, some .unknownCall)
   | some calls =>
     match scriptOf a v calls with
